@@ -429,6 +429,10 @@ func (s *Session) writeCompressed(rw io.ReadWriter, p *Proposal) (err error) {
 		s.log.Println("GZIP_EXPERIMENT:", "Transmitting gzip compressed message.")
 	}
 
+	if p.offset < 0 || p.offset > len(p.compressedData) {
+		return fmt.Errorf("Remote requested %s at offset %d, but the compressed message is only %d bytes", p.mid, p.offset, len(p.compressedData))
+	}
+
 	writer := bufio.NewWriter(rw)
 
 	var (
